@@ -59,6 +59,8 @@ structure Site where
   fn : String
   /-- ordinal of the site inside its function (stable under line shifts) -/
   idx : Nat
+  /-- number of enclosing `if _sync` sites -/
+  depth : Nat := 0
   test : Bool
   syncArm : List Tok
   asyncArm : List Tok
@@ -175,6 +177,190 @@ def Sig.isTwin (g : Sig) : Bool :=
 /-- The flavoured parameter types of a signature (what the caller must supply in two forms). -/
 def Sig.flavoured (g : Sig) : List Tok :=
   g.asyncSig.filter (fun x => stripAsyncPrefix x != x)
+
+/-! ### Awaited futures
+`normAsync` erases `.await`, `async` and `Box::pin(` independently, so an async arm that only
+*creates* a future (`log_async(x);` without `.await`, `let _ = async { check(x) };`,
+`Box::pin(f_async(x));`) normalises to the sync arm although the call never runs.
+`awaitBalanced` closes that hole: in an async arm, after removing `Box::pin( … )` wrappers,
+every call of an `_async` function is immediately followed by `.await`; every call `.m( … )` of
+a method that the flavoured traits declare `async` under the *same* name (`flavouredMethods`)
+is immediately followed by `.await`; and there is no `async` block or closure at all. The only
+`_async` names that are not awaited are the reviewed synchronous accessors of the
+asynchronous slot (`Context::resolver_async()`), which are not `async fn`s
+(`hand_pairs_reviewed`, kind `syncNamed`). -/
+
+/-- the rest of the token list after the `)` that closes the group opened just before -/
+def skipParen : Nat → List Tok → Option (List Tok)
+  | _, [] => none
+  | d, .t "(" :: r => skipParen (d + 1) r
+  | 0, .t ")" :: r => some r
+  | d + 1, .t ")" :: r => skipParen d r
+  | d, _ :: r => skipParen d r
+
+def awaitedAt : List Tok → Bool
+  | .t "." :: .t "await" :: _ => true
+  | _ => false
+
+/-- `_async`-named functions that are ordinary (non-`async`) functions: accessors / setters of
+the asynchronous resolver slot of `Context`. -/
+def syncNamedAccessors : List String := ["resolver", "with_resolver", "set_resolver"]
+
+/-- methods that `AsyncSigner` / `AsyncRawSigner` / `AsyncTimeStampProvider` /
+`AsyncPostValidator` / `AsyncDynamicAssertion` declare `async` under the same name as their
+synchronous counterparts. -/
+def flavouredMethods : List String :=
+  ["sign", "ocsp_response", "send_time_stamp_request", "validate", "content"]
+
+/-- a call group `( … )` starts here and is followed by `.await` -/
+def callAwaited : List Tok → Bool
+  | .t "(" :: r => match skipParen 0 r with
+    | some after => awaitedAt after
+    | none => false
+  | _ => false
+
+def callsAwaited : List Tok → Bool
+  | [] => true
+  | .sfx s :: r => (syncNamedAccessors.contains s || callAwaited r) && callsAwaited r
+  | .t "async" :: _ => false
+  | .t "." :: .t m :: r =>
+    (if flavouredMethods.contains m then callAwaited r else true) && callsAwaited (.t m :: r)
+  | _ :: r => callsAwaited r
+
+/-- Every future the async arm creates is awaited on the spot. -/
+def awaitBalanced (ts : List Tok) : Bool := callsAwaited (unboxPin [] ts)
+
+/-! ### Hand-written pairs
+A `fn X_async` that appears in the source is *not* a macro expansion (the macro generates its
+`_async` functions at compile time). The translator lists every one that has a sibling `fn X`
+in the same scope, with both bodies. -/
+
+structure HandPair where
+  file : String
+  /-- name of the synchronous sibling -/
+  fn : String
+  idx : Nat
+  test : Bool
+  /-- the `_async` function is an `async fn` -/
+  asyncKw : Bool
+  /-- both are trait method declarations without a body -/
+  declOnly : Bool
+  hasBody : Bool
+  syncBody : List Tok
+  asyncBody : List Tok
+  deriving Repr
+
+inductive HandKind
+  /-- the two bodies are token twins (`related .twin`) and the async body is await-balanced -/
+  | twinBody
+  /-- twins after replacing the one string literal `b` (a log label naming the function) by `a` -/
+  | twinBodyLabel (a b : String)
+  /-- trait method declarations, no bodies: the implementations are the other rows -/
+  | declOnly
+  /-- not an `async fn`: a synchronous accessor / setter of the asynchronous slot -/
+  | syncNamed
+  /-- different bodies; the pair is compared on the implementation by the harness operation `op` -/
+  | differential (op : String)
+  deriving DecidableEq, Repr
+
+def HandPair.ok (p : HandPair) : HandKind → Bool
+  | .twinBody => p.hasBody && p.asyncKw && related .twin p.syncBody p.asyncBody && awaitBalanced p.asyncBody
+  | .twinBodyLabel a b =>
+    p.hasBody && p.asyncKw && rename b a (normAsync p.asyncBody) == normSync p.syncBody && awaitBalanced p.asyncBody
+  | .declOnly => p.declOnly
+  | .syncNamed => !p.asyncKw && p.hasBody && syncNamedAccessors.contains p.fn
+  | .differential _ => p.hasBody && p.asyncKw
+
+structure ReviewedHand where
+  file : String
+  fn : String
+  idx : Nat
+  kind : HandKind
+
+/-- The reviewed hand-written pairs of non-test code. Any other hand-written pair, and any edit
+that breaks the relation of its kind, fails `hand_pairs_reviewed`. -/
+def reviewedHand : List ReviewedHand := [
+  -- accessors / setters of the async resolver slot (plain `fn`s)
+  { file := "context.rs", fn := "resolver", idx := 0, kind := .syncNamed },
+  { file := "context.rs", fn := "set_resolver", idx := 0, kind := .syncNamed },
+  { file := "context.rs", fn := "with_resolver", idx := 0, kind := .syncNamed },
+  -- two long hand-written bodies; they differ in `.await`/`_async` and in one log label
+  { file := "identity/claim_aggregation/ica_signature_verifier.rs", fn := "check_signature", idx := 0,
+    kind := .twinBodyLabel "\"IcaSignatureVerifier::check_signature\"" "\"IcaSignatureVerifier::check_signature_async\"" },
+  { file := "identity/claim_aggregation/w3c_vc/did_web.rs", fn := "resolve", idx := 0, kind := .twinBody },
+  { file := "identity/identity_assertion/built_in_signature_verifier.rs", fn := "check_signature", idx := 0, kind := .twinBody },
+  { file := "identity/identity_assertion/signature_verifier.rs", fn := "check_signature", idx := 0, kind := .declOnly },
+  { file := "identity/x509/x509_signature_verifier.rs", fn := "check_signature", idx := 0, kind := .twinBody },
+  -- `Ingredient::from_stream` goes through the generic `add_stream_internal`,
+  -- `from_stream_async` through the hand-written `from_stream_async_with_settings`
+  { file := "ingredient.rs", fn := "from_stream", idx := 0, kind := .differential "ingredient-from-stream" }
+]
+
+def HandPair.reviewedAs (p : HandPair) (rs : List ReviewedHand) : Option HandKind :=
+  (rs.find? (fun r => r.file == p.file && r.fn == p.fn && r.idx == p.idx)).map (·.kind)
+
+def HandPair.covered (p : HandPair) (rs : List ReviewedHand) : Bool :=
+  p.test || rs.any (fun r => r.file == p.file && r.fn == p.fn && r.idx == p.idx && p.ok r.kind)
+
+/-- `fn X_async` / `fn X` in different scopes of one file: the two members of a sync/async trait
+pair (`SyncHttpResolver::http_resolve` / `AsyncHttpResolver::http_resolve_async`) — callee pairs
+the caller supplies (`LeafAgree`). (file, X) -/
+def reviewedCross : List (String × String) := [
+  ("http/mod.rs", "http_resolve"), ("http/reqwest.rs", "http_resolve"),
+  ("http/restricted.rs", "http_resolve"), ("http/wasi.rs", "http_resolve")
+]
+
+/-- `fn X_async` without a synchronous `fn X` (deprecated thread-local-settings constructors of
+`Ingredient`): (file, X, harness operation that compares it with the synchronous operation of the
+same meaning, or `-` when the SDK offers no synchronous form at all — such an operation is not
+"offered in both forms" and is outside the statement). `from_memory_async` is compared with
+`from_stream` on a cursor over the same bytes. -/
+def reviewedOrphans : List (String × String × String) := [
+  ("ingredient.rs", "from_memory", "ingredient-from-memory"),
+  ("ingredient.rs", "from_manifest_and_asset_bytes", "-"),
+  ("ingredient.rs", "from_manifest_and_asset_stream", "-")
+]
+
+/-- Operations the property statement names; each must be a macro-generated pair:
+(file, function). De-macroing one of them (two hand-written bodies) fails
+`required_pairs_generic`. -/
+def requiredPairs : List (String × String) := [
+  ("builder.rs", "sign"), ("builder.rs", "save_to_stream"),
+  ("builder.rs", "add_ingredient_from_stream"), ("builder.rs", "add_ingredient_from_archive"),
+  ("builder.rs", "sign_data_hashed_embeddable"), ("builder.rs", "sign_box_hashed_embeddable"),
+  ("reader.rs", "with_stream"), ("reader.rs", "with_manifest_data_and_stream"),
+  ("reader.rs", "with_fragment"), ("reader.rs", "with_store"), ("reader.rs", "post_validate"),
+  ("ingredient.rs", "with_stream"), ("ingredient.rs", "add_stream_internal"),
+  ("store.rs", "sign_claim"), ("store.rs", "save_to_stream"), ("store.rs", "verify_store"),
+  ("store.rs", "from_stream"), ("store.rs", "from_manifest_data_and_stream"),
+  ("store.rs", "load_jumbf_from_stream"), ("store.rs", "load_fragment_from_stream"), ("store.rs", "ingredient_checks"),
+  ("store.rs", "get_data_hashed_embeddable_manifest"), ("store.rs", "get_box_hashed_embeddable_manifest"),
+  ("claim.rs", "verify_claim"), ("cose_validator.rs", "verify_cose"), ("cose_sign.rs", "cose_sign"),
+  ("crypto/cose/sign.rs", "sign"), ("crypto/cose/verifier.rs", "verify_signature"),
+  ("crypto/cose/sigtst.rs", "validate_cose_tst_info"),
+  ("identity/identity_assertion/assertion.rs", "validate_partial_claim"),
+  ("identity/x509/x509_signature_verifier.rs", "check_x509_cose_signature"),
+  ("identity/claim_aggregation/ica_signature_verifier.rs", "check_issuer_signature"),
+  ("identity/claim_aggregation/w3c_vc/did_web.rs", "get_did_doc")
+]
+
+def isGeneric (fns : List (String × String × Bool)) (p : String × String) : Bool :=
+  fns.any (fun f => f.1 == p.1 && f.2.1 == p.2 && !f.2.2)
+
+/-- the `_async` callees of an async arm -/
+def asyncCallees : List Tok → List String
+  | .sfx s :: r => s :: asyncCallees r
+  | _ :: r => asyncCallees r
+  | [] => []
+
+/-- Inventory summary answered by the driver (compared with an independent scan of sdk/src by
+the harness): attributed functions, hand-written pairs (non-test / test), cross-scope rows,
+orphans (non-test). -/
+structure Inventory where
+  functions : List (String × String × Bool)
+  hand : List HandPair
+  cross : List (String × String × Bool)
+  orphans : List (String × String × Bool)
 
 /-! ### Settings projection (the `settingsProj` side condition)
 Settings are a map from field path to value. `Store::sign_claim` clones the settings and
@@ -309,6 +495,81 @@ def twins : Prog → Bool
   | .site a b => erase (expand .async b) == expand .sync a
   | _ => true
 
+/-! ### One SDK function at program level: `verify_cose` (cose_validator.rs)
+```
+let verifier = …;                                   -- prim 0
+let sign1 = parse_cose_sign1(..)?;                  -- prim 1 (may fail)
+let tst_info = match tst_info {                     -- cond 0: caller supplied a time stamp
+    Some(t) => Some(t.clone()),                     -- prim 2
+    None => if _sync { validate_cose_tst_info(..).ok() }            -- site 0: callee pair 1
+            else { validate_cose_tst_info_async(..).await.ok() } };
+if _sync { Ok(verifier.verify_signature(..)?) }                      -- site 1: callee pair 2
+else { Ok(verifier.verify_signature_async(..).await?) }
+```
+The correspondence with the regenerated token table (`progMatchesTable`) checks that the
+function has exactly these sites, at this nesting depth, and that each arm calls exactly the
+named callee in the flavour of the arm. -/
+
+def verifyCoseCallee : Nat → String
+  | 1 => "validate_cose_tst_info"
+  | 2 => "verify_signature"
+  | _ => "?"
+
+open Prog in
+def verifyCoseProg : Prog :=
+  seq (prim 0) (seq (prim 1) (seq (ite 0 (prim 2) (site (leaf 1) (leafA 1))) (site (leaf 2) (leafA 2))))
+
+/-- calls of synchronous / asynchronous members of callee pairs, in order -/
+def leavesS : Prog → List Nat
+  | .leaf n => [n]
+  | .seq p q => leavesS p ++ leavesS q
+  | .ite _ p q => leavesS p ++ leavesS q
+  | .loop _ p => leavesS p
+  | .site a b => leavesS a ++ leavesS b
+  | _ => []
+
+def leavesA : Prog → List Nat
+  | .leafA n => [n]
+  | .seq p q => leavesA p ++ leavesA q
+  | .ite _ p q => leavesA p ++ leavesA q
+  | .loop _ p => leavesA p
+  | .site a b => leavesA a ++ leavesA b
+  | _ => []
+
+/-- The sites of a program in source order (outer site, then the sites nested in its sync arm,
+then those nested in its async arm — the order of the token table): nesting depth, the callee
+pairs the sync arm calls after the macro reduced nested sites, the pairs the async arm awaits,
+and whether the "wrong" flavour occurs in an arm. -/
+def progSites : Nat → Prog → List (Nat × List Nat × List Nat × Bool)
+  | d, .seq p q => progSites d p ++ progSites d q
+  | d, .ite _ p q => progSites d p ++ progSites d q
+  | d, .loop _ p => progSites d p
+  | d, .site a b =>
+    (d, leavesS (expand .sync a), leavesA (expand .async b),
+      (leavesA (expand .sync a)).isEmpty && (leavesS (expand .async b)).isEmpty)
+      :: (progSites (d + 1) a ++ progSites (d + 1) b)
+  | _, _ => []
+
+/-- identifiers of `names` that a sync arm mentions -/
+def syncCallees (names : List String) : List Tok → List String
+  | .t s :: r => if names.contains s then s :: syncCallees names r else syncCallees names r
+  | _ :: r => syncCallees names r
+  | [] => []
+
+def siteMatches (name : Nat → String) (names : List String) (row : Site)
+    (x : Nat × List Nat × List Nat × Bool) : Bool :=
+  row.depth == x.1 && x.2.2.2 &&
+  asyncCallees row.asyncArm == x.2.2.1.map name &&
+  syncCallees names row.syncArm == x.2.1.map name &&
+  (asyncCallees row.syncArm).isEmpty && (syncCallees names row.asyncArm).isEmpty
+
+/-- The program has the same number of sites as the table rows of the function, in the same
+order and nesting, and every arm calls exactly the callee pairs the program says, in the flavour
+of the arm. -/
+def progMatchesTable (name : Nat → String) (names : List String) (p : Prog) (rows : List Site) : Bool :=
+  (progSites 0 p).length == rows.length &&
+    ((progSites 0 p).zip rows).all (fun xr => siteMatches name names xr.2 xr.1)
+
 /-! ## Line protocol (correspondence with the *real macro*)
 The harness contains a handful of `#[async_generic]` functions over a tracing state, expanded
 by the real crate at compile time; the same bodies are the `testProg`s below.
@@ -392,8 +653,57 @@ def outStr : Option (Out TState Nat) → String
 def decodeToks (s : String) : List Tok :=
   (splitList (if s == "-" then "" else s) ",").filterMap (fun h => (fromHex? h).map (fun bs => classify (String.ofList (bs.map (fun b => Char.ofNat b.toNat)))))
 
-def handle (toks : List String) : String :=
+def insertSorted (x : String) : List String → List String
+  | [] => [x]
+  | y :: r => if x < y then x :: y :: r else if x == y then y :: r else y :: insertSorted x r
+
+def sortDedup (xs : List String) : List String := xs.foldr insertSorted []
+
+def Inventory.pairNames (inv : Inventory) : List String :=
+  sortDedup (inv.hand.map (fun p => p.file ++ ":" ++ p.fn) ++ inv.cross.map (fun c => c.1 ++ ":" ++ c.2.1))
+
+def Inventory.orphanNames (inv : Inventory) : List String :=
+  sortDedup (inv.orphans.map (fun c => c.1 ++ ":" ++ c.2.1))
+
+/-- harness operations named by the reviewed hand-written pairs -/
+def handOps : List String :=
+  sortDedup (reviewedHand.filterMap (fun r => match r.kind with | .differential op => some op | _ => none)
+    ++ reviewedOrphans.filterMap (fun r => if r.2.2 == "-" then none else some r.2.2))
+
+def kindStr : HandKind → String
+  | .twinBody => "twinBody"
+  | .twinBodyLabel _ _ => "twinBodyLabel"
+  | .declOnly => "declOnly"
+  | .syncNamed => "syncNamed"
+  | .differential op => "differential:" ++ op
+
+def setDiff (a b : List String) : List String := a.filter (fun x => !b.contains x)
+
+def cmpSets (what : String) (mine theirs : List String) : List String :=
+  (setDiff mine theirs).map (fun x => what ++ "-only-in-table=" ++ x) ++
+  (setDiff theirs mine).map (fun x => what ++ "-only-in-scan=" ++ x)
+
+def handleWith (inv : Inventory) (toks : List String) : String :=
   match toks with
+  | "inv" :: rest =>
+    -- the harness scanned sdk/src on its own (line based, no lexer); the table must agree
+    let attrs := (field rest "attrs").toNat?
+    let pairs := sortDedup (splitList (if field rest "pairs" == "-" then "" else field rest "pairs") ",")
+    let orph := sortDedup (splitList (if field rest "orphans" == "-" then "" else field rest "orphans") ",")
+    let d := (if attrs == some inv.functions.length then [] else ["attrs-table=" ++ toString inv.functions.length]) ++
+      cmpSets "pair" inv.pairNames pairs ++ cmpSets "orphan" inv.orphanNames orph
+    if d.isEmpty then "ok" else String.intercalate ";" d
+  | ["handops"] => String.intercalate "," handOps
+  | "hand" :: rest =>
+    -- how a hand-written pair of non-test code is accounted for
+    match inv.hand.find? (fun p => p.file == field rest "file" && p.fn == field rest "fn" && !p.test) with
+    | none => "no-such-pair"
+    | some p =>
+      match p.reviewedAs reviewedHand with
+      | none => "unreviewed"
+      | some k => if p.ok k then kindStr k else "broken:" ++ kindStr k
+  | "awaitbal" :: rest =>
+    if awaitBalanced (decodeToks (field rest "b")) then "balanced" else "unbalanced"
   | "run" :: rest =>
     match (field rest "fn").toNat?, (field rest "conds").toNat?, (field rest "ctr").toNat? with
     | some k, some conds, some ctr =>
